@@ -6,7 +6,7 @@ import time
 
 VERIF = os.path.dirname(os.path.dirname(os.path.abspath(__file__)))
 REPLAY = os.path.join(VERIF, 'replay')
-HAVE = {'C01', 'C03', 'C04', 'C05', 'C06', 'C07', 'C08', 'C10', 'C12', 'C13', 'C14', 'C15', 'C19'}
+HAVE = {'C01', 'C03', 'C04', 'C05', 'C06', 'C07', 'C08', 'C10', 'C11', 'C12', 'C13', 'C14', 'C15', 'C19', 'C20'}
 RIDS = {'C08': ['C08', 'C08Q'], 'C07': ['C04']}     # replay-crate dispatch ids per property (default: the property id)
 _cache = {}
 
@@ -52,6 +52,16 @@ def search(pid, seed, tier='quick'):
 
 
 BOUNDED = {
+    'C11': dict(what='the REAL IndexedInstruments::new / builder / FromIterator on multisets of instrument definitions (spot, perpetual, future, option; settlement and quantity-unit '
+                     'assets; 4 exchanges; shared asset names; duplicates) in every insertion order: key == position, values distinct, value set == distinct inputs, look-ups '
+                     'mutually inverse, absent keys are errors, every exchange / asset reference inside an instrument resolves, result independent of order and duplicates; the '
+                     'REAL EngineStateBuilder / generate_* tables and ExecutionBuilder links (statically and end to end through mock links) hold at index i the entity i',
+                bound={'quick': 'ordered tuples with repetition up to length 4 over 12 definitions (a third of the longest), subsets fwd / reversed / rotated, 700 seeded multisets x 4 shuffles (~15k cases)', 'thorough': 'up to length 5, all 4095 subsets, 60k seeded multisets (~520k cases)'}),
+    'C20': dict(what='the REAL backtest() / run_backtests() on multi-thread (4 workers) and current-thread tokio runtimes with a recording GlobalData (one log per engine), a '
+                     'timing-independent EveryK strategy, mock execution, in-memory and paced market data: every dataset event once and in order before shutdown, summaries '
+                     'computed from the own engine, concurrent (N = 2..8) equals alone (orders always; fills / positions / balances / PnL exactly with the paced feed, as a '
+                     'sub-multiset with the in-memory feed)',
+                bound={'quick': 'dataset sizes 0,1,2,7,30,64; ~200 batches, 3 concurrent repetitions', 'thorough': 'plus sizes 3,12,150; ~4000 batches, 6 repetitions'}),
     'C06': dict(what='the REAL Binance spot and futures L2 transformers behind the REAL with_termination_on_error + with_reconnection_events: two instruments on one '
                      'connection followed by a clean second connection; deliveries perturbed by drop / duplicate / swap / replay of an old prefix / late or early start / '
                      'snapshot id at every boundary / stray update: admitted updates form an unbroken chain and equal the reference, a break is a terminal error that ends '
